@@ -84,6 +84,10 @@ func wellFormed(c Case) bool {
 		if f.File < 0 || f.File >= n || f.Variant < 0 || f.Variant > 2 {
 			return false
 		}
+	case "longline":
+		if f.File < 0 || f.File >= n || f.Variant < 0 || f.Variant > 100 {
+			return false
+		}
 	case "field":
 		if f.Pos < 0 || f.Pos > n || f.FName == "file" || f.FName == "commit" || strings.ContainsAny(f.FName, "\"\r\n") || strings.Contains(f.FValue, "\r") {
 			return false
@@ -150,9 +154,46 @@ func (k *checker) faulty() {
 		}
 	}
 
+	eitherOutcome := false
 	switch f.Kind {
 	case "none":
 		mustFail = false
+		k.s.ffs.begin(-1, false, false)
+		bd := buildBody(uploadParts(tgt, tag))
+		status, resp = k.s.post(bd.body, len(bd.body), "eof")
+
+	case "longline":
+		// A file with a (non-benchmark) line too long for a line scanner, after its first
+		// benchmark line. The server may reject such an upload or take it whole; what it
+		// may not do is answer 2xx and keep only a part of the file.
+		fl := tgt.Files[f.File]
+		at := len(fl.Rows)
+		for i, r := range fl.Rows {
+			if r.K == 0 {
+				at = i + 1 + f.Variant%3
+				break
+			}
+		}
+		if at > len(fl.Rows) {
+			at = len(fl.Rows)
+		}
+		long := Row{K: 3, A: "# " + strings.Repeat("x", 70000+1000*f.Variant)}
+		rows := append(append(append([]Row{}, fl.Rows[:at]...), long), fl.Rows[at:]...)
+		files := append([]File{}, tgt.Files...)
+		fl.Rows = rows
+		files[f.File] = fl
+		tgt.Files = files
+		full = fullFiles(tgt, tag)
+		delivered = full
+		mustFail, eitherOutcome = false, true
+		for i := 0; i < f.File; i++ {
+			allowed[i] = full[i].content
+			countFile(i, len(tgt.Files[i].Rows))
+		}
+		countFile(f.File, at)
+		if at < len(rows)-1 {
+			v.Label("longline:benchmark_lines_follow")
+		}
 		k.s.ffs.begin(-1, false, false)
 		bd := buildBody(uploadParts(tgt, tag))
 		status, resp = k.s.post(bd.body, len(bd.body), "eof")
@@ -385,7 +426,7 @@ func (k *checker) faulty() {
 		v.Failf("upload with fault %s was answered %d %s: the fault must fail the upload", describe(f), status, strings.TrimSpace(string(resp)))
 		return
 	}
-	if !ok && !mustFail && f.Kind != "trunc" {
+	if !ok && !mustFail && f.Kind != "trunc" && !eitherOutcome {
 		v.Failf("upload without an effective fault (%s) was answered %d: %s", describe(f), status, resp)
 		return
 	}
@@ -467,6 +508,8 @@ func describe(f Fault) string {
 		return fmt.Sprintf("file-store call %d fails (partial=%v sticky=%v)", f.K, f.Partial, f.Sticky)
 	case "nobench":
 		return fmt.Sprintf("file %d without benchmark lines (variant %d)", f.File, f.Variant)
+	case "longline":
+		return fmt.Sprintf("file %d with a line of more than 64 KiB (variant %d)", f.File, f.Variant)
 	case "field":
 		return fmt.Sprintf("unexpected field %q before file %d", f.FName, f.Pos)
 	case "abort":
@@ -605,7 +648,7 @@ func Gen(t *rapid.T) Case {
 	c.Follow = genUpload(t, 1, 2, false)
 	n := len(c.Target.Files)
 	switch kind := rapid.SampledFrom([]string{"trunc", "trunc", "trunc", "trunc", "trunc", "trunc", "trunc", "fs", "fs", "fs", "fs", "fs", "fs",
-		"nobench", "nobench", "field", "field", "abort", "abort", "none"}).Draw(t, "kind"); kind {
+		"nobench", "nobench", "longline", "longline", "field", "field", "abort", "abort", "none"}).Draw(t, "kind"); kind {
 	case "trunc":
 		bd := buildBody(uploadParts(c.Target, "t"))
 		off := 0
@@ -620,6 +663,8 @@ func Gen(t *rapid.T) Case {
 	case "fs":
 		N := fsCalls(c)
 		c.Fault = Fault{Kind: "fs", K: uniform(t, N, "k"), Partial: rapid.Bool().Draw(t, "partial"), Sticky: rapid.Bool().Draw(t, "sticky")}
+	case "longline":
+		c.Fault = Fault{Kind: "longline", File: rapid.IntRange(0, n-1).Draw(t, "file"), Variant: rapid.IntRange(0, 5).Draw(t, "variant")}
 	case "nobench":
 		c.Fault = Fault{Kind: "nobench", File: rapid.IntRange(0, n-1).Draw(t, "file"), Variant: rapid.IntRange(0, 2).Draw(t, "variant")}
 	case "field":
